@@ -78,6 +78,13 @@ def gen_source(rng, idx, big=None):
         L += ["\tdfs 300", "fwd%d:\tnop" % idx]
     if rng.chance(0.2):
         L.append("\tinclude \"inc%d.inc\"" % idx)
+    if rng.chance(0.12):
+        # the manual's forward-reference trap: a short branch over operands that shrink once a symbol defined at the very end is
+        # known.  In pass 2 the branch still sees its target at the old, too distant address: an error is reported in a pass
+        # that is then repeated (documented; -Y hides it).  Whatever is reported must still decide status and code file.
+        k = rng.randint(52, 75)
+        L[1:1] = ["\tbeq sk%d" % idx] + ["\tlda zv%d" % idx] * k + ["sk%d:\tnop" % idx]
+        L.append("zv%d\tequ $10" % idx)
     if rng.chance(0.3):
         # diagnostics that are only issued when the pass ends, after the last source line has been read
         L.append(rng.choice(LATE).replace("%d", str(idx)))
